@@ -190,6 +190,18 @@ func runChild(env []string, outFile string) *result {
 	}
 	if rerr == nil && json.Unmarshal(b, r) == nil && !timedOut && (err == nil || len(r.races) > 0) {
 		r.AcceptExit = 0
+		// the proxy's own error log: bytes that came back from its memory cache
+		// did not decode.  Nothing outside the process can alter them, so the
+		// stored response was not handed back intact (in simulation a buffer
+		// released while it was being read carries the release poison)
+		if i := strings.Index(stderr.String(), "invalid cache data in memory"); i >= 0 {
+			line := stderr.String()[max(0, strings.LastIndex(stderr.String()[:i], "\n")+1):]
+			if j := strings.IndexByte(line, '\n'); j >= 0 {
+				line = line[:j]
+			}
+			d := "the proxy logged that the bytes its memory cache returned for a lookup did not decode (stored response not returned intact): " + line
+			r.Violations = append(r.Violations, violation{Property: "C07", Clause: "cache-entry-corrupt", Detail: d}, violation{Property: "C20", Clause: "cache-entry-read-while-released", Detail: d})
+		}
 		return r
 	}
 	// a verdict written ahead of a step that ends the process from inside
